@@ -1152,7 +1152,7 @@ def check_C03(ctx):
     ctx.cov["rule"] = FRAME_RULE
     ctx.assumptions = ["refreshing container = auto refresh; in manual mode only 'no output after Wait' is checked (the library "
                        "renders only when asked)"]
-    frames_check(ctx, {"OUT_CONTENT", "OUT_ROWS", "BAR_RENDER", "FINAL", "CT_FLUSHBAR", "HM_STATE", "OUT_UNEXPECTED", "RET_GET"},
+    frames_check(ctx, {"OUT_CONTENT", "OUT_ROWS", "BAR_RENDER", "BAR_OP", "FINAL", "CT_FLUSHBAR", "HM_STATE", "OUT_UNEXPECTED", "RET_GET"},
                  M.c03_monitor, 200, 6000, CONT_DEPS | {"ContainerLife.v", "ContainerFlush.v", "Props/C03.v"})
     ctx.cov["rule"] += ("; opt family: what a finished bar shows with the on-complete / on-abort filler options (messages, clear), "
                         "filler middleware order, BarID, conditional bar and container option constructors, NopStyle, AddSpinner; containers of "
@@ -1263,7 +1263,7 @@ ALLFAMS = [("frames", 0.4, True), ("sched", 0.3, True), ("faults", 0.3, True)]
 def check_C14(ctx):
     ctx.cov["rule"] = FRAME_RULE + "; cancel / Shutdown placed by the script at any step; shutdown listeners wrapped 0-4 deep on both sides"
     ctx.assumptions = ["cancellation placement is explored by the scripted position plus scheduling perturbation at the hook points"]
-    frames_check(ctx, {"BAR_EXIT", "FINAL", "NOTIFY", "HM_END", "CT_DONE", "CT_EXIT"}, M.c14_monitor, 300, 8000,
+    frames_check(ctx, {"BAR_EXIT", "BAR_OP", "FINAL", "NOTIFY", "HM_END", "CT_DONE", "CT_EXIT"}, M.c14_monitor, 300, 8000,
                  CONT_DEPS | {"ContainerLife.v", "Listen.v", "Props/C14.v"}, fams=[("frames", 0.5, True), ("sched", 0.5, True)])
 
 
@@ -1639,7 +1639,7 @@ def check_C02(ctx):
                        "a panic or a hang is observed, not excluded by proof; the theorems cover the select shapes, the exited bar and the "
                        "heap manager's end"]
     sigs = set()
-    frames_check(ctx, {"LATE_WRITE", "LATE_ADD", "HM_END", "HM_PUSH"}, M.c02_monitor, 200, 6000,
+    frames_check(ctx, {"LATE_WRITE", "LATE_ADD", "HM_END", "HM_PUSH", "CT_OP", "CT_RENDERSIZE", "CL_OP"}, M.c02_monitor, 200, 6000,
                  LIFE_DEPS | PQ_DEPS | {"Props/C02.v"}, fams=ALLFAMS)
     if ctx.harness:
         if late_check(ctx, True, sigs):
